@@ -481,6 +481,9 @@ def xstack_effect(opcode, opc, oparg: int = 0, jump=None):
         return -2 if oparg == 3 else -1
     elif opname == "LOAD_ATTR" and version_tuple >= (3, 12):
         return 1 if oparg & 1 else 0
+    elif opname == "FORMAT_VALUE" and version_tuple >= (3, 6):
+        # bit 2 of the operand: a format spec is on the stack as well
+        return -1 if oparg & 0x04 else 0
     elif opname == "MAKE_FUNCTION":
         if version_tuple >= (3, 5):
             if 0 <= oparg <= 10:
